@@ -20,7 +20,8 @@ Section ConcClass.
   | KConSeveral       (* a connect whose endpoints are touched by two or more calls of another thread *)
   | KConSamePair      (* two connects of the same ordered pair: out-order and in-order may differ *)
   | KUndirSelfLoop    (* undirected: u.connect(u) concurrent with degree()/iter() of u *)
-  | KUndirIterShift.  (* undirected: iter() of u concurrent with a connect FROM u *)
+  | KUndirIterShift   (* undirected: iter() of u concurrent with a connect FROM u *)
+  | KConCycle.        (* connects of several threads whose adjacency lists (out src / in dst) are shared in a cycle *)
 
   Definition ids_with_key (h : heap) (k : K) : list nat := filter (has_key keqb h k) (iota 0 (size h)).
 
@@ -62,6 +63,28 @@ Section ConcClass.
 
   Definition is_some_class (o : option kclass) : bool := match o with Some _ => true | None => false end.
 
+  (* connects of the scenario as (thread, source, target).  Every connect appends to TWO lists in two critical sections:
+     the source's outbound list, then the target's inbound list.  View the lists as vertices and the connects as edges
+     (out src -- in dst) of a bipartite multigraph: if that multigraph has a cycle whose connects come from at least two
+     threads, a schedule can order each shared list so that "was appended before" is cyclic, and no sequential order
+     of the calls explains the final lists (c17_refuted_cycle).  Cycle detection: repeatedly delete connects that are
+     the only remaining user of one of their two lists; what survives lies on cycles. *)
+  Definition thread_connects (threads : list (list call)) : list (nat * nat * nat) :=
+    flat_map (fun i => flat_map (fun c => match c with CConnect _ u v _ => [(i, u, v)] | _ => [] end) (nth i threads []))
+             (iota 0 (length threads)).
+  Definition cnt_src (l : list (nat * nat * nat)) (u : nat) : nat := length (filter (fun p => Nat.eqb (snd (fst p)) u) l).
+  Definition cnt_dst (l : list (nat * nat * nat)) (v : nat) : nat := length (filter (fun p => Nat.eqb (snd p) v) l).
+  Definition prune1 (l : list (nat * nat * nat)) : list (nat * nat * nat) :=
+    filter (fun p => Nat.ltb 1 (cnt_src l (snd (fst p))) && Nat.ltb 1 (cnt_dst l (snd p))) l.
+  Fixpoint prune (n : nat) (l : list (nat * nat * nat)) : list (nat * nat * nat) :=
+    match n with 0 => l | S n' => prune n' (prune1 l) end.
+  Definition has_connect_cycle (threads : list (list call)) : bool :=
+    let l := thread_connects threads in
+    match prune (length l) l with
+    | [] => false
+    | (i, _, _) :: r => existsb (fun p => negb (Nat.eqb (fst (fst p)) i)) r
+    end.
+
   (* first class found, scanning threads and calls in order (mirrors the loop structure of the check) *)
   Definition known_class (directed : bool) (h : heap) (threads : list (list call)) : option kclass :=
     let idx := iota 0 (length threads) in
@@ -77,7 +100,10 @@ Section ConcClass.
             idx)
           (nth i threads []))
         idx in
-    match cands with c :: _ => Some c | [] => None end.
+    match cands with
+    | c :: _ => Some c
+    | [] => if has_connect_cycle threads then Some KConCycle else None
+    end.
 
   (* ---------------- outcomes and serialisability of one finished run ---------------- *)
   Definition oeqb (a b : outcome E) : bool :=
